@@ -175,6 +175,7 @@ partial def decStage (j : Json) : Except String SDesc := do
   | [.str "assert1", .str name] => pure (SDesc.assert1 name)
   | [.str "ignore"] => pure SDesc.ignore
   | [.str "route"] => pure SDesc.ignore
+  | [.str "route", .str "late"] => pure SDesc.ignore
   | [.str "err_map", v] => do pure (SDesc.errMap (← decVal v))
   | [.str "err_map_name"] => pure SDesc.errMapName
   | [.str "group_by", f, p] => do pure (SDesc.groupBy (← decFn1 f) (← decPipe p))
